@@ -411,6 +411,56 @@ pub fn oracle_buildseq(words: &[&str]) -> String {
     }
 }
 
+/// One element of a BUILDSEQG session: a typed message, or `G <number> <seed>` = the crate's second build
+/// entry point `build_generated_message` (feature `test_gen`, on by default) with seeded generators.
+enum Step { Msg(Message), Gen(u16, u64) }
+
+fn parse_step(words: &[&str]) -> Option<Step> {
+    match words {
+        ["G", n, s] => Some(Step::Gen(n.parse().ok()?, s.parse().ok()?)),
+        w => parse_msg(w).map(Step::Msg),
+    }
+}
+
+fn run_step(b: &mut MessageBuilder, st: &Step) -> String {
+    use rand::SeedableRng;
+    let r = std::panic::catch_unwind(std::panic::AssertUnwindSafe(|| match st {
+        Step::Msg(m) => res_text(b.build_message(m)),
+        Step::Gen(n, s) => {
+            let mut vg = rtcm_rs::val_gen::ValGen::new(rand::rngs::StdRng::seed_from_u64(*s),
+                rand::rngs::StdRng::seed_from_u64(s.wrapping_add(1)), rand::rngs::StdRng::seed_from_u64(s.wrapping_add(2)));
+            res_text(b.build_generated_message(&mut vg, *n))
+        }
+    }));
+    r.unwrap_or_else(|_| "PANIC".into())
+}
+
+/// C12 over both build entry points: the last step's result on the used builder equals a fresh builder's.
+/// (The generated-message entry point is outside the Lean model: its body encoder draws random values; the
+/// builder prologue/epilogue it shares with `build_message` is what the session exercises.)
+pub fn oracle_buildseq_gen(words: &[&str]) -> String {
+    let steps: Option<Vec<Step>> = split_semi(words).into_iter().map(parse_step).collect();
+    let steps = match steps {
+        Some(s) if !s.is_empty() => s,
+        _ => return "BAD-OP".into(),
+    };
+    let mut b = MessageBuilder::new();
+    let mut last = String::new();
+    for st in &steps {
+        last = run_step(&mut b, st);
+        if last == "PANIC" {
+            return "FAIL C09 build panicked".into();
+        }
+    }
+    let mut fresh = MessageBuilder::new();
+    let exp = run_step(&mut fresh, steps.last().unwrap());
+    if last == exp {
+        "PASS".into()
+    } else {
+        format!("FAIL C12 used builder gives {} fresh builder gives {}", &last[..last.len().min(80)], &exp[..exp.len().min(80)])
+    }
+}
+
 // ---------------------------------------------------------------- text conversions
 use rtcm_rs::util::{ArrayString, Df88591String};
 
